@@ -1,15 +1,23 @@
 """C15 — Static loading never executes analysed code; interpreter state is restored.
 
-(T) Gen/C15_ladder.v regenerated from loader.py / importer.py (agent ladder, not-found guard, handler tables, re-entry gates,
-    sys_path protocol, dynamic_import handlers) + census of every execution-capable call site in src/_griffe.
-(C) model session (Coq, extracted)  vs  griffe.load run in a forked child of a clean subprocess on generated package trees
-    whose every module logs its execution (and the sys.path it sees) to a sentinel file: result type, agent per module,
-    loaded modules, execution multiset with seen sys.path, new sys.modules entries, sys.path identity / contents.
+(T) Gen/C15_ladder.v regenerated from loader.py / importer.py / finder.py / cli.py: agent ladder, not-found guard, handler
+    tables, re-entry gates, sys_path protocol, dynamic_import handlers; the statement order of _inspect_module and which
+    files the loader reads itself; the `if submodules` recursion test; the skeletons of _load_submodules / _load_submodule
+    / _load_package (shape checks); the finder's `search_paths or sys.path`; how allow_inspection / force_inspection /
+    store_source / submodules travel from load, load_git, `griffe dump`, `griffe check` down to GriffeLoader; + a census of
+    every execution-capable call site in src/_griffe.
+(C) run_phases (Coq, extracted)  vs  the entry point (griffe.load, griffe.load_git on generated git repositories, griffe.main
+    ["dump" | "check", ...]) run in a forked child of a clean subprocess on generated package trees whose every module logs
+    its execution (and the sys.path it sees) to a sentinel file: result type, outcome of every load call with its nesting
+    (request trees), agent per module and the order of agents, files read by the loader, loaded modules, execution
+    multiset with seen sys.path, new sys.modules entries, sys.path identity / contents; finder search paths after
+    __init__ and the options that reach GriffeLoader vs the generated tables.
     Also: the ladder exhaustively against GriffeLoader._load_module_path, the not-found guard against GriffeLoader.load,
     dynamic_import / inspect called directly (including the no-paths no-op branch of sys_path).
 (O) model of CPython's import of a dotted name vs CPython (the execution log), exception ancestry vs real MROs.
-direct: static loads run nothing / import nothing / skip compiled modules / leave sys.path alone; inspected loads never die
-    of SystemExit, surface ImportError / LoadingError, and restore sys.path (same object, same contents).
+direct: static loads (through every entry point) run nothing / import nothing / skip compiled modules / leave sys.path alone;
+    inspected loads never die of SystemExit, surface ImportError / LoadingError, and restore sys.path (same object, same
+    contents) -- also with search_paths=None in an interpreter with a normalised sys.path, and with stale search paths.
 """
 from __future__ import annotations
 
@@ -26,42 +34,51 @@ from harness.common.framework import REPO
 from harness.translate import c15_ladder
 
 ID = "C15"
-LEVEL_TEXT = ("Theorems over every world (any package layout, any import-time behaviour of any module: raising, SystemExit, KeyboardInterrupt, "
-              "missing dependency, in-place mutation or rebinding of sys.path) and every sequence of re-entrant loads asked for by alias "
-              "resolution: with inspection neither allowed nor forced no module body runs, the inspector is never reached, sys.modules and sys.path are "
-              "untouched, compiled modules are skipped (submodule) or refused (top level); with inspection, sys.path is bound to the same list object "
-              "with the same contents after the session, SystemExit never escapes and import-time failures leave load as ImportError / LoadingError. "
-              "The decision tables the theorems are stated over (agent ladder of _load_module_path, the ModuleNotFoundError guard of load, handler lists, "
-              "re-entry gates, try/finally of sys_path, BaseException handlers of dynamic_import) are regenerated from loader.py / importer.py on every "
-              "run, together with a census of all execution-capable call sites of src/_griffe; the state-transformer model is tied to the code by "
-              "running griffe.load in clean forked interpreters on generated sentinel packages.")
+LEVEL_TEXT = ("Theorems over every world (any package layout, any import-time behaviour of any module: raising, SystemExit, KeyboardInterrupt, a "
+              "BaseException subclass, missing dependency, in-place mutation or rebinding of sys.path; any exception while walking an imported module) "
+              "and every tree of re-entrant loads (alias resolution / wildcard expansion re-entering load, re-entered packages with stubs re-entering again, "
+              "to any depth), for a loader and for every public entry point (load, load_git, `griffe dump` over several packages, the loads of `griffe check`): "
+              "with inspection neither allowed nor forced no module body runs, the inspector is never reached, sys.modules and sys.path are untouched, "
+              "compiled modules are skipped (submodule) or refused (top level); every entry point forwards allow/force unchanged; with inspection, sys.path "
+              "is bound to the same list object with the same contents afterwards (the finder falls back on sys.path, so the only hypothesis is that "
+              "search paths and sys.path are not both empty), SystemExit never escapes, and what can leave a load is classified exactly: ImportError / "
+              "ModuleNotFoundError / LoadingError, the finder's own error, or a walk fault the handlers do not convert; the loader itself only reads "
+              "source files. The decision tables the theorems are stated over (agent ladder, ModuleNotFoundError guard, handler lists, re-entry gates, "
+              "try/finally of sys_path, BaseException handlers of dynamic_import, statement order and read test of _inspect_module, finder fallback, "
+              "option forwarding of the entry points) are regenerated from loader.py / importer.py / finder.py / cli.py on every run, together with a "
+              "census of all execution-capable call sites of src/_griffe; the state-transformer model is tied to the code by running the entry points in "
+              "clean forked interpreters on generated sentinel packages and git repositories.")
 LEVEL_NOTE = ("Partial by nature: that compile(..., PyCF_ONLY_AST) / ast.parse execute nothing is CPython's contract, covered only by the runtime "
               "observation (sentinel files, sys.modules) — the theorems cover Griffe's decision logic and the restore protocol. The finder (which files "
-              "belong to a package) is input to the model (C14's subject); the harness derives it from the generated layout. Which packages alias "
-              "resolution asks for is left arbitrary in the theorems (any sequence after the root load, and any sequence nested in it where "
-              "_load_package expands wildcards before merging stubs; re-entered packages are modelled without a nested phase of their own); "
-              "the gates are tied separately. Faults while walking an imported "
-              "module other than SystemExit escape load unconverted (modelled as the code is; outside the property's fault alphabet). os._exit, "
-              "threads and code that keeps a reference to the original sys.path list object are outside the model. C15_sys_path_restored needs "
-              "non-empty search paths when nothing is found on disk (sys_path() without paths is a no-op; sharpness shown by an Example).")
+              "belong to a package, what find_spec inserts ahead of the search paths for a file path) is input to the model (C14's subject); the harness "
+              "derives it from the generated layout. Which packages alias resolution asks for, and how the requests nest, is left arbitrary in the theorems "
+              "(any request trees); the gates are tied separately. Faults while walking an imported module that the handlers do not convert (RuntimeError, "
+              "KeyboardInterrupt, a BaseException subclass; OSError for a module without file) leave load unconverted: modelled as the code is, classified "
+              "by C15_failures_classified; the property statement only asks for the restoration of sys.path, which holds for them. `griffe check` with "
+              "inspection allowed is checked directly only (modules imported from the removed first worktree stay in sys.modules: outside the model). "
+              "os._exit, threads and code that keeps a reference to the original sys.path list object are outside the model. The restore theorems need "
+              "search paths or sys.path to be non-empty (sys_path() without paths is a no-op; sharpness shown by an Example).")
 MODEL = ("Model.C15_loader", "run_C15")
 COQ_TARGETS = ["Proofs/C15_loader.vo", "Proofs/C15_restore.vo", "Proofs/C15_failures.vo", "Proofs/C15_reads.vo"]
-RULE = ("systematic: a fixed package (top, a, sub/__init__, sub/k, compiled .so and .pyc submodules, stub) with one fault kind x one placement x "
-        "with/without sys.path effects, loaded under allow / force / both / neither; random: package trees (regular / namespace / single module / "
-        "stub-only / zipped / top-level .pyc / garbage .so / absent; .py .pyi .pyc .so submodules, sub-packages, in-package and separate stubs, "
-        "syntax and encoding errors, getattr and walk hooks) with external packages (private sibling, alias target, wildcard target, chained, "
-        "missing), crossed with sampled loader options (allow x force x submodules x by name / relative path / Path / missing Path / hidden x "
-        "try_relative_path x find_stubs_package x resolve_aliases x resolve_external in {None,True,False} x resolve_implicit x packages importable from the "
-        "running interpreter's own sys.path or not), plus griffe.dynamic_import (with / without import paths) and griffe.inspect called directly. A case is "
-        "non-trivial when some agent is chosen or an import is attempted; distinct by (tree, options). Exhaustive: ladder over 2x2x2x9 suffixes, "
-        "not-found guard over 2x2, gates over 3x2^4.")
-TRUSTED = ["translator harness/translate/c15_ladder.py (whitelisted AST shapes of loader.py / importer.py and a call-site census; fails closed)",
-           "the harness's rendering of a generated layout as finder output (module files of a package, stubs pairing) and as import behaviours",
+RULE = ("systematic: a fixed package (top, a, sub/__init__, sub/k, compiled .so and .pyc submodules, stub) with one fault kind (8 import-time faults, "
+        "syntax / encoding errors, 4 walk faults) x one placement x with/without sys.path effects, loaded under allow / force / both / neither, by name, "
+        "by path, with search_paths=None in a normalised interpreter, with stale search paths, and (every fourth) through load_git / dump / check; random: "
+        "package trees (regular / namespace / single module / stub-only / zipped / top-level .pyc / garbage .so / absent; .py .pyi .pyc .so submodules, "
+        "sub-packages, in-package and separate stubs, syntax and encoding errors, getattr and walk hooks) with external packages (private sibling, alias "
+        "target, wildcard target, chained, missing; re-entered packages with stubs and private siblings of their own, two levels deep), crossed with "
+        "sampled loader options (allow x force x submodules x by name / relative path / Path / missing Path / hidden / stale search paths / default "
+        "search paths x try_relative_path x find_stubs_package x resolve_aliases x resolve_external in {None,True,False} x resolve_implicit x packages "
+        "importable from the running interpreter's own sys.path or not) and with the entry points load_git (name / path), dump (one or two packages, "
+        "with -s or the default search paths), check (new tree / new reference) on a git repository made of the layout; plus griffe.dynamic_import (with / "
+        "without import paths) and griffe.inspect called directly. A case is non-trivial when some agent is chosen or an import is attempted; distinct "
+        "by (tree, entry, options). Exhaustive: ladder over 2x2x2x9 suffixes, not-found guard over 2x2, gates over 3x2^4.")
+TRUSTED = ["translator harness/translate/c15_ladder.py (whitelisted AST shapes of loader.py / importer.py / finder.py / cli.py and a call-site census; fails closed)",
+           "the harness's rendering of a generated layout as finder output (module files of a package, stubs pairing, what find_spec inserts) and as import behaviours",
            "CPython: compile(..., PyCF_ONLY_AST) and ast.parse execute nothing (observed through sentinels, not proved)"]
 ASSUMPTIONS = ["imported code reaches sys.path only through the name sys.path (mutating the current list or rebinding it), not through a saved reference "
                "to the list object that was bound before the load",
-               "faults occur at import attempts, at attribute access in dynamic_import, or as SystemExit while walking an imported module",
-               "search paths are non-empty when the package is not found on disk"]
+               "faults occur at import attempts, at attribute access in dynamic_import, or while walking an imported module",
+               "search paths and sys.path are not both empty when a loader is built"]
 TRANSLATOR_NAME = "harness/translate/c15_ladder.py"
 
 FAULTS = ["RuntimeError", "SystemExit", "sysexit_call", "KeyboardInterrupt", "ModuleNotFoundError", "ImportError", "PanicException", "OSError"]
